@@ -2,6 +2,12 @@
 """usage: tools/benign_prompt.py <tag> <area text>  -> prompt for a sub-agent that writes property-PRESERVING changes."""
 import json, sys
 tag, area = sys.argv[1], sys.argv[2]
+import glob
+base = tag.rstrip("0123456789")
+earlier = []
+for d in sorted(glob.glob("/verif/benign/%s*-*/meta.json" % base)):
+    earlier.append("- " + json.load(open(d)).get("title", "")[:200])
+earlier_txt = ("\nEarlier rounds already wrote the following changes in this area; do something DIFFERENT (other code sites, other kinds of change):\n" + "\n".join(earlier) + "\n") if earlier else ""
 props = [json.loads(l) for l in open("/verif/properties.jsonl")]
 wt = "/tmp/wtB-%s" % tag
 plist = "\n\n".join("%s — %s\n%s" % (p["id"], p["title"], p["statement"]) for p in props)
@@ -17,7 +23,7 @@ Code guarded by `#[cfg(datacake_verif)]` is test instrumentation: keep it compil
 allowed to use it), and keep every `pub` item's name and signature unchanged.
 
 YOUR AREA: {area}
-
+{earlier_txt}
 Write FIVE independent changes (each applies on its own to a clean checkout) of the kind maintainers really make and
 that a too-strict test could trip over, for example: a different but equally valid choice where the specification
 leaves freedom (iteration order, which of several eligible nodes is chosen, tie-free internal ordering, batching
